@@ -12,6 +12,8 @@ formats, comments, hyperlinks, tables) is covered by the differential oracle of
 -/
 import XlModel.Lemmas.Settings
 import XlModel.Lemmas.CondFmt
+import XlModel.Lemmas.DvDelete
+import XlModel.DvRecord
 
 namespace XlModel.Props.C18
 open XlModel XlModel.Settings
@@ -590,6 +592,160 @@ theorem protect_replaces_example :
     unprotect .workbook H s2 (some "anything".toList) = (none, true) := by decide
 
 end ProtectionThms
+
+/-! ## DeleteDataValidation: exactly the covered cells lose their rule -/
+
+section DvDeleteThms
+open XlModel.DvDelete
+
+/-- `dv_delete_exactly`, clause "deleting … removes exactly that item" for data validations:
+for stored rules whose sqref lists every cell once and top-to-bottom inside each column
+(`Clean`: what a single range, disjoint ascending areas, or an earlier delete produce), after
+`DeleteDataValidation(range)`
+* every rule denotes exactly its former cells outside the range,
+* a rule survives iff it has a cell outside the range — in particular a rule wholly inside the
+  range never survives, wherever it stands in the list (the class of seeded change C18d/2),
+* a cell is covered afterwards iff it was covered before and is not in the range. -/
+theorem dv_delete_exactly (rules : List (List Cell)) (del : List Cell) (hc : ∀ r ∈ rules, Clean r) :
+    (∀ r ∈ rules, ∀ a, a ∈ rewriteRule r del ↔ a ∈ r ∧ a ∉ del) ∧
+    (∀ r ∈ rules, (rewriteRule r del ∈ deleteRules rules del ↔ ∃ a ∈ r, a ∉ del)) ∧
+    (∀ a, (∃ r' ∈ deleteRules rules del, a ∈ r') ↔ (∃ r ∈ rules, a ∈ r) ∧ a ∉ del) := by
+  have h1 : ∀ r ∈ rules, ∀ a, a ∈ rewriteRule r del ↔ a ∈ r ∧ a ∉ del :=
+    fun r hr a => mem_rewriteRule r del (hc r hr) a
+  refine ⟨h1, ?_, ?_⟩
+  · intro r hr
+    unfold deleteRules
+    simp only [List.mem_filter, List.mem_map]
+    constructor
+    · intro ⟨_, hne⟩
+      cases hrw : rewriteRule r del with
+      | nil => simp [hrw] at hne
+      | cons a t =>
+        have : a ∈ rewriteRule r del := by rw [hrw]; simp
+        exact ⟨a, ((h1 r hr a).1 this).1, ((h1 r hr a).1 this).2⟩
+    · intro ⟨a, ha, hd⟩
+      refine ⟨⟨r, hr, rfl⟩, ?_⟩
+      have : a ∈ rewriteRule r del := (h1 r hr a).2 ⟨ha, hd⟩
+      cases hrw : rewriteRule r del with
+      | nil => rw [hrw] at this; simp at this
+      | cons _ _ => rfl
+  · intro a
+    unfold deleteRules
+    constructor
+    · intro ⟨r', hr', ha⟩
+      simp only [List.mem_filter, List.mem_map] at hr'
+      obtain ⟨⟨r, hr, e⟩, _⟩ := hr'
+      subst e
+      exact ⟨⟨r, hr, ((h1 r hr a).1 ha).1⟩, ((h1 r hr a).1 ha).2⟩
+    · intro ⟨⟨r, hr, ha⟩, hd⟩
+      have hm : a ∈ rewriteRule r del := (h1 r hr a).2 ⟨ha, hd⟩
+      refine ⟨rewriteRule r del, ?_, hm⟩
+      simp only [List.mem_filter, List.mem_map]
+      refine ⟨⟨r, hr, rfl⟩, ?_⟩
+      cases hrw : rewriteRule r del with
+      | nil => rw [hrw] at hm; simp at hm
+      | cons _ _ => rfl
+
+/-- the order of the surviving rules is the stored order (the result is a filtered map) -/
+theorem dv_delete_keeps_order (rules : List (List Cell)) (del : List Cell) :
+    deleteRules rules del = (rules.map (fun r => rewriteRule r del)).filter (fun r => !r.isEmpty) := rfl
+
+/-- the seeded history C18d/2 in the model: rules A1:A3, B1:B3, C1:C3, E1:E5; delete A1:C3
+leaves exactly the rule on E1:E5 -/
+theorem dv_delete_adjacent_example :
+    (match flatSqref "A1:A3".toList, flatSqref "B1:B3".toList, flatSqref "C1:C3".toList,
+           flatSqref "E1:E5".toList, flatSqref "A1:C3".toList with
+     | .ok a, .ok b, .ok c, .ok e, .ok d => deleteRules [a, b, c, e] d == [e]
+     | _, _, _, _, _ => false) = true := by decide +kernel
+
+/-- finding dvdel:areas-not-ascending: the full statement fails without `Clean`: a rule whose
+areas are written bottom-up ("A5:A6 A1:A2") is rewritten by ANY delete call — even one that
+touches none of its cells — to the span A2:A5: it gains A3, A4 and loses A1, A6
+(`squashSqref` assumes increasing rows) -/
+theorem finding_dv_delete_descending_areas :
+    rewriteRule [(1, 5), (1, 6), (1, 1), (1, 2)] [(3, 9)] = [(1, 2), (1, 3), (1, 4), (1, 5)] := by decide +kernel
+
+/-- finding dvdel:overlapping-areas: a cell listed twice by a rule ("A1:A2 A2" lists A2 twice)
+is removed only once: after deleting A2 the rule still covers A2 -/
+theorem finding_dv_delete_overlapping_areas :
+    (1, 2) ∈ rewriteRule [(1, 1), (1, 2), (1, 2)] [(1, 2)] := by decide +kernel
+
+end DvDeleteThms
+
+/-! ## the data-validation record through the builder methods, AddDataValidation and the getter -/
+
+section DvRecordThms
+open XlModel.DvRecord
+
+/-- the enum strings of the two maps (constants 1..8 in iota order) and the three error styles -/
+theorem dv_enum_facts_pinned :
+    Facts.C18.dvTypeNames = ["none", "custom", "date", "decimal", "list", "textLength", "time", "whole"] ∧
+    Facts.C18.dvOperatorNames = ["between", "equal", "greaterThan", "greaterThanOrEqual", "lessThan",
+      "lessThanOrEqual", "notBetween", "notEqual"] ∧
+    Facts.C18.dvErrorStyles = ["stop", "warning", "information"] ∧ listType = "list".toList := by decide
+
+theorem getFormula_nil (b : Bool) : getFormula b [] = [] := by cases b <;> decide
+
+/-- `dv_set_get_roundtrip`: for EVERY DataValidation structure, what GetDataValidations returns
+after AddDataValidation is the structure itself with the two formulas decoded (Formula1 of a
+list validation as a drop-list text, every other formula only unescaped); every other field —
+flags, sqref, type, operator, the five optional texts, nil or set — is returned unchanged -/
+theorem dv_set_get_roundtrip (dv : DV) :
+    getDV (addDV dv) =
+      { dv with formula1 := getFormula (dv.type == listType) dv.formula1,
+                formula2 := getFormula false dv.formula2 } := by
+  obtain ⟨ab, e, es, et, op, p, pt, dd, sem, sim, sq, ty, f1, f2⟩ := dv
+  simp only [getDV, addDV]
+  congr 1
+  · cases f1 with
+    | nil => simp [getFormula_nil]
+    | cons c r => simp
+  · cases f2 with
+    | nil => simp [getFormula_nil]
+    | cons c r => simp
+
+/-- SetRange with string formulas reads back as set: Formula2 always, Formula1 for every
+validation type except "list" (there a quoted text is a drop list by design) -/
+theorem dv_setrange_roundtrip (dv : DV) (a b : List Char) (t o : Nat)
+    (ht : (enumName Facts.C18.dvTypeNames t == listType) = false) :
+    (getDV (addDV (setRange dv (.str a) (.str b) t o))).formula1 = a ∧
+    (getDV (addDV (setRange dv (.str a) (.str b) t o))).formula2 = b := by
+  rw [dv_set_get_roundtrip]
+  simp only [setRange, genFormula, ht]
+  exact ⟨dv_formula_roundtrip a, dv_formula_roundtrip b⟩
+
+/-- SetDropList reads back as the quoted joined list, with type "list", for every key list
+within the length limit whose joined text does not start with `=` -/
+theorem dv_droplist_record_roundtrip (dv d : DV) (keys : List (List Char))
+    (heq : ['='].isPrefixOf (joinKeys keys) = false) (h : setDropListDV dv keys = some d) :
+    (getDV (addDV d)).formula1 = '"' :: joinKeys keys ++ ['"'] ∧ (getDV (addDV d)).type = listType := by
+  unfold setDropListDV at h
+  cases hs : setDropList (joinKeys keys) with
+  | none => simp [hs] at h
+  | some f =>
+    simp [hs] at h; subst h
+    rw [dv_set_get_roundtrip]
+    simp only [beq_self_eq_true, getFormula, if_true]
+    have hlen : ¬ Facts.MaxFieldLength < utf16Len (joinKeys keys) := by
+      intro hl; simp [setDropList, hl] at hs
+    have := droplist_roundtrip (joinKeys keys) hlen heq
+    rw [hs] at this
+    simp only [Option.map_some, Option.some.injEq] at this
+    exact ⟨this, trivial⟩
+
+/-- SetError / SetInput read back: message, title, flag; an unknown style falls back to "stop" -/
+theorem dv_seterror_setinput_roundtrip (dv : DV) (style : Nat) (t m it im : List Char) :
+    let d := getDV (addDV (setInput (setError dv style t m) it im))
+    d.error = some m ∧ d.errorTitle = some t ∧ d.showErrorMessage = true ∧
+    d.prompt = some im ∧ d.promptTitle = some it ∧ d.showInputMessage = true ∧
+    (¬ (1 ≤ style ∧ style ≤ 3) → d.errorStyle = some "stop".toList) := by
+  simp only [dv_set_get_roundtrip, setInput, setError]
+  refine ⟨trivial, trivial, trivial, trivial, trivial, trivial, ?_⟩
+  intro h
+  simp only [h, if_false]
+  decide
+
+end DvRecordThms
 
 /-! ## conditional formats: type tables and list semantics -/
 
